@@ -111,6 +111,12 @@ pub fn scenario(g: &mut G, ctx: &RunCtx) -> RunReport {
         plan.text_charset_implicit = plan.text_charset == Some(encoding_rs::WINDOWS_1252);
         g.probe("text-reader-over-a-single-byte-charset");
     }
+    // (no draw) servers that end chunk data (and some size lines) with a bare LF: a reader may refuse that, but
+    // one that takes it must not wait for the octet after the LF before handing the chunk out
+    if plan.framing == Framing::Chunked && !plan.chunk_lens.is_empty() && (plan.payload.len() + plan.chunk_lens.len()) % 5 == 2 {
+        plan.relax_line_endings();
+        g.probe("chunks-ending-in-bare-lf");
+    }
     // where the server goes silent (connection stays open)
     let head_len = plan.wire.head_len;
     let frame_end = plan.wire.frame_end;
@@ -270,6 +276,8 @@ fn oracle(plan: &BodyPlan, o: &Observed, h: &attosim::History, plain_out: &[(u64
             match &c.res {
                 Ok(n) if *n >= 1 => {}
                 Ok(0) if at(ts).1 && handed == payload_out_len => {}
+                // a strict reader refusing the bare LF (at once: the wait was checked above)
+                Err(_) if plan.lf_line_endings => return Verdict::Pass,
                 other => {
                     return violation(
                         "deliverable-data-not-delivered",
